@@ -14,14 +14,33 @@ use tracing::{span, Event, Level, Metadata, Subscriber};
 pub struct Line {
     pub t_ns: u64,
     pub level: u8, // 1 error .. 5 trace
+    /// sequence number of the task poll during which the line was logged: everything one poll of
+    /// the daemon's main task logs (a whole BMCA round) shares it
+    pub poll: u64,
     pub msg: String,
 }
 
 thread_local! {
     static LINES: RefCell<Vec<Line>> = const { RefCell::new(Vec::new()) };
+    /// most verbose level captured: 3 = info (default), 4 = debug (C19: the per-round
+    /// "Recommended state port N" lines mark the BMCA rounds)
+    static MAX_LEVEL: std::cell::Cell<u8> = const { std::cell::Cell::new(3) };
+    static ROUNDS: std::cell::Cell<u64> = const { std::cell::Cell::new(0) };
 }
 
+pub fn set_max_level(l: u8) {
+    MAX_LEVEL.with(|m| m.set(l));
+}
+
+/// BMCA rounds logged so far (needs debug level)
+pub fn rounds_seen() -> u64 {
+    ROUNDS.with(|r| r.get())
+}
+
+pub const ROUND_MARKER: &str = "Recommended state port ";
+
 pub fn take() -> Vec<Line> {
+    ROUNDS.with(|r| r.set(0));
     LINES.with(|l| std::mem::take(&mut *l.borrow_mut()))
 }
 
@@ -43,7 +62,14 @@ impl Visit for Msg {
 
 impl Subscriber for Capture {
     fn enabled(&self, m: &Metadata<'_>) -> bool {
-        *m.level() <= Level::INFO
+        let l = match *m.level() {
+            Level::ERROR => 1,
+            Level::WARN => 2,
+            Level::INFO => 3,
+            Level::DEBUG => 4,
+            Level::TRACE => 5,
+        };
+        l <= MAX_LEVEL.with(|m| m.get())
     }
     fn new_span(&self, _: &span::Attributes<'_>) -> span::Id {
         span::Id::from_u64(1)
@@ -61,7 +87,16 @@ impl Subscriber for Capture {
             Level::TRACE => 5,
         };
         let t_ns = clock_steering::sim::vt_ns();
-        LINES.with(|l| l.borrow_mut().push(Line { t_ns, level, msg: m.0 }));
+        if level == 4 {
+            // of the debug lines only the round markers are kept
+            if !m.0.starts_with(ROUND_MARKER) {
+                return;
+            }
+            if m.0.starts_with("Recommended state port 1:") {
+                ROUNDS.with(|r| r.set(r.get() + 1));
+            }
+        }
+        LINES.with(|l| l.borrow_mut().push(Line { t_ns, level, poll: crate::worker::poll_seq(), msg: m.0 }));
     }
     fn enter(&self, _: &span::Id) {}
     fn exit(&self, _: &span::Id) {}
